@@ -1302,6 +1302,27 @@ class Ctx:
         raise AnalysisError("anchor function '%s' not found (alternatives tried: %s)"
                             % (suffix, list(alts)))
 
+    def with_helpers(self, f: Func) -> List[Func]:
+        """`f` and the functions it calls (transitively) that do not exist in the reference tree and could not be spliced
+        into their callers: code moved out of an anchored function is still part of what the anchor's rules read."""
+        from .inline import known_functions
+        known = known_functions()
+        out, todo = [f], [f]
+        while todo:
+            g = todo.pop()
+            for c in ast.walk(g.node):
+                if not isinstance(c, ast.Call):
+                    continue
+                nm = c.func.attr if isinstance(c.func, ast.Attribute) else (c.func.id if isinstance(c.func, ast.Name) else None)
+                for h in self.repo.funcs.values():
+                    if h.name == nm and h.module is f.module and h not in out and h.parent is None:
+                        key = "%s:%s%s" % (h.module.name, (h.cls.name + ".") if h.cls else "", h.name)
+                        if key not in known:
+                            out.append(h)
+                            todo.append(h)
+                            self.analysed_funcs.add(h.qual)
+        return out
+
     def seen(self, *funcs: Func):
         for f in funcs:
             if f is not None:
